@@ -38,10 +38,11 @@ type c21sScenario struct {
 	states    int
 	permbatch int
 	clean     bool
+	bound     int
 }
 
 func (c c21sScenario) id() string {
-	return fmt.Sprintf("permanent-merge|states=%d|batchlimit=%d|clean=%v", c.states, c.permbatch, c.clean)
+	return fmt.Sprintf("permanent-merge|states=%d|batchlimit=%d|clean=%v|bound=%d", c.states, c.permbatch, c.clean, c.bound)
 }
 
 var c21sPrev *vfDB
@@ -198,19 +199,17 @@ func TestVerifC21S(t *testing.T) {
 
 	env := vfNewEnv()
 
-	bound := vlib.Pick(r, 1, 2)
-
 	cfgs := []c21sScenario{
-		{states: 4, permbatch: 4},
+		{states: 4, permbatch: 4, bound: vlib.Pick(r, 1, 2)},
 	}
 
 	if r.Thorough() {
-		cfgs = append(cfgs, c21sScenario{states: 4, permbatch: 8, clean: true}, c21sScenario{states: 10, permbatch: 4})
+		cfgs = append(cfgs, c21sScenario{states: 4, permbatch: 8, clean: true, bound: 1}, c21sScenario{states: 10, permbatch: 4, bound: 1})
 	}
 
 	r.Rule("per scenario (number of states of the merged block x permanent batch limit x with/without cleanRemoved) every interleaving of the merging thread and the batch-writing job goroutines within the preemption bound; for each produced journal every prefix and every torn last write is recovered and checked; non-trivial = a scenario with more than one journal shape")
 	r.Assume("goleveldb is an atomic step of the calling thread under the scheduler, so concurrent Write calls are never merged into one journal record (goleveldb's write merge would make two batches one atomic unit: fewer crash states, not more)")
-	r.Set("preemption_bound", bound)
+	r.Set("preemption_bound_of_first_scenario", cfgs[0].bound)
 
 	sh, nsh := r.Shard()
 
@@ -240,7 +239,7 @@ func TestVerifC21S(t *testing.T) {
 			continue
 		}
 
-		res := vsched.Explore(vsched.Config{Name: id, Bound: bound, Build: build, Expired: r.Expired, MaxFound: 2, Horizon: 20000,
+		res := vsched.Explore(vsched.Config{Name: id, Bound: c.bound, Build: build, Expired: r.Expired, MaxFound: 2, Horizon: 20000,
 			Mine: func(l int) bool { return nsh <= 1 || l%nsh == sh }, Secondary: sh != 0})
 		if res.EngineError != "" {
 			panic("engine error in " + id + ": " + res.EngineError)
@@ -257,7 +256,7 @@ func TestVerifC21S(t *testing.T) {
 		if res.Capped != "" {
 			r.Cap(res.Capped)
 		} else {
-			r.Min("preemption_bound_completed", int64(res.BoundCompleted))
+			r.Set("preemption_bound_completed:"+id, res.BoundCompleted)
 		}
 
 		if len(res.Outcomes) > 1 {
